@@ -452,4 +452,5 @@ RULES = [
 	('11.h', 'manager side: the re-confirmation test reads a field cleared at every retraction site; confirmation bookkeeping is written by the channel writer itself', r11h),
 	('11.f', 'manager side: channel_ready needs height - conf_height + 1 >= minimum_depth; funding reorg re-evaluated', r11f),
 	('11.v', 'field-versus-field comparisons (a received value against a limit, an id against an id) are the reviewed ones: same fields, same operator (rules/provenance.py)', lambda F: provenance.cmps_for_property(F, 'C11', '11.v')),
+	('11.s', 'no reviewed function gained a short-circuiting iterator adaptor (find / find_map / take / position ...: an every-element walk that stops at the first match; rules/provenance.py)', lambda F: provenance.sc_for_property(F, 'C11', '11.s')),
 ]
